@@ -371,7 +371,7 @@ func c20FrontmatterHistory(d c20Input) *fw.Violation {
 	md := "What does this program print?\n\n```evy\nprint \"x\"\n```\n\n- `x`\n- `y`\n- `x`\n"
 	m, err := learn.NewQuestionModel("course/unit/exercise/question1.md", learn.WithRawMD(fm, md), learn.WithPrivateKey(c20TestPriv))
 	if err != nil {
-		panic("C20: cannot build the carrier question: " + err.Error())
+		return viol("carrier-question-rejected", "a well-formed multiple-choice question is built", err.Error())
 	}
 	otherPriv := c20GeneratedKeys[0][1]
 	sealed := false
@@ -435,7 +435,7 @@ func c20FrontmatterRoundtrip(d c20Input) *fw.Violation {
 	md := "What does this program print?\n\n```evy\nprint \"x\"\n```\n\n- `x`\n- `y`\n"
 	m, err := learn.NewQuestionModel("course/unit/exercise/question1.md", learn.WithRawMD(fm, md), learn.WithPrivateKey(c20TestPriv))
 	if err != nil {
-		panic("C20: cannot build the carrier question: " + err.Error())
+		return viol("carrier-question-rejected", err.Error())
 	}
 	m.Frontmatter.Answer = d.Answer
 	if err := m.Seal(c20TestPub); err != nil {
@@ -501,7 +501,7 @@ func c20MixedCase(in c20MixedInput) *fw.Violation {
 	}
 	err = c20MixedVerify(qdir, in.Subject, in.Answer)
 	if err != nil && strings.HasPrefix(err.Error(), "construction") {
-		panic("C20: cannot build the mixed-mode question: " + err.Error())
+		return &fw.Violation{Sub: "mixed", Signature: "mixed-question-rejected", What: "a well-formed question over program files cannot be built", Input: in, Expected: "built", Observed: err.Error()}
 	}
 	if (err == nil) != in.Want {
 		sig := "mixed-accepts-wrong-key"
